@@ -99,7 +99,10 @@ FnOtherAnns == {TAny, Cls("object"), Cls("int"), <<"callable", "", <<>>>>, U(Cls
                 Gen("list", <<Cls("int")>>), <<"type", "", <<Cls("A")>>>>}
 AllAnns == Anns \cup SigAnns
 (* the values enumerated against an annotation *)
-ValsFor(t) == IF t \in SigAnns THEN Vals \cup FnVals
+SigAnnsFull == {CallSig(1), U(CallSig(1), TNone), U(Cls("str"), CallSig(2))}
+ValsFor(t) == IF t \in SigAnns THEN
+                (IF t \in SigAnnsFull THEN Vals ELSE ScalarVals \cup ClassVals \cup {FnVal})
+                \cup (IF t[1] = "callsig" THEN FnVals ELSE {v \in FnVals : v[2].form = "def"})
               ELSE IF t \in FnOtherAnns THEN Vals \cup FnValsSmall ELSE Vals
 AllVals == Vals \cup FnVals
 
@@ -166,6 +169,8 @@ ExportInv ==
   (Export /\ k = 1 /\ site = "arg") =>
      PrintT(<<"CASE", ToJson([anns |-> Anns, vals |-> Vals, siganns |-> SigAnns,
                               fnother |-> FnOtherAnns, fnvals |-> FnVals, fnsmall |-> FnValsSmall,
+                              \* the values enumerated against each Callable[[..], ..] annotation
+                              sigvals |-> {<<t, ValsFor(t)>> : t \in SigAnns},
                               maxn |-> MaxN,
                               \* the oracle's arity table, confirmed against CPython by the driver
                               cancall |-> {<<v, n>> \in FnVals \X (0..MaxN) : Admits(CallSig(n), v)}])>>)
